@@ -26,7 +26,7 @@ def gen_case(rng):
     return {'kind': 'dynflow', 'entry': rng.choice(['parts', 'composite', 'store']),
             'initial': rng.choice([['a'], ['a'], ['a', 'z']]),
             'generate_at': rng.choice([None, 1, 2, 2]), 'divide_at': rng.choice([None, None, 2, 3]),
-            'ticks': rng.choice([4, 5]), 'x0': rng.choice([0, 2, 7])}
+            'ticks': rng.choice([4, 5]), 'x0': rng.choice([0, 2, 7]), 'slow': rng.choice([None, None, 2, 3])}
 
 
 def corpus():
@@ -37,6 +37,9 @@ def corpus():
          'x0': 0},
         {'kind': 'dynflow', 'entry': 'composite', 'initial': ['a', 'z'], 'generate_at': None, 'divide_at': 2,
          'ticks': 4, 'x0': 7},
+        # F36: the dividing mother holds a process (timestep 3) whose update is in flight; the daughters inherit it
+        {'kind': 'dynflow', 'entry': 'parts', 'initial': ['a'], 'generate_at': None, 'divide_at': 2, 'ticks': 5,
+         'x0': 1, 'slow': 3},
     ]
 
 
@@ -51,6 +54,19 @@ def _classes():
 
         def next_update(self, timestep, states):
             return {'vars': {'x': 1}}
+
+    class Slow(Process):
+        """a process with a long timestep: its update is in flight when the compartment divides"""
+        defaults = {'key': None, 'ts': 3}
+
+        def ports_schema(self):
+            return {'vars': {'slow_calls': {'_default': 0, '_divider': 'set'}}}
+
+        def calculate_timestep(self, states):
+            return self.parameters['ts']
+
+        def next_update(self, timestep, states):
+            return {'vars': {'slow_calls': 1}}
 
     class Chain(Step):
         defaults = {'key': None, 'role': 'start'}
@@ -91,15 +107,18 @@ def _classes():
                 upd['_divide'] = {'mother': 'a', 'daughters': [{'key': 'a0'}, {'key': 'a1'}]}
             return {'agents': upd} if upd else {}
 
-    return Grow, Chain, Director
+    return Grow, Chain, Director, Slow
 
 
-def compartment(key, x0):
-    Grow, Chain, _ = _classes()
-    return {'processes': {'grow': Grow({'key': key})},
+def compartment(key, x0, slow=None):
+    Grow, Chain, _, Slow = _classes()
+    procs = {'grow': Grow({'key': key})}
+    if slow:
+        procs['slow'] = Slow({'key': key, 'ts': slow})
+    return {'processes': procs,
             'steps': {r: Chain({'key': key, 'role': r}) for r in ROLES},
             'flow': {r: list(FLOW[r]) for r in ROLES},
-            'topology': dict({'grow': {'vars': ('vars',)}}, **{r: {'vars': ('vars',)} for r in ROLES}),
+            'topology': dict({p: {'vars': ('vars',)} for p in procs}, **{r: {'vars': ('vars',)} for r in ROLES}),
             'initial_state': {'vars': {'x': x0}}}
 
 
@@ -108,7 +127,7 @@ def run_impl(case):
     from vivarium.core.composer import Composite
     from vivarium.core.emitter import Emitter
     from vivarium.core.registry import emitter_registry
-    _, _, Director = _classes()
+    _, _, Director, _ = _classes()
     key = f'df-{next(_ids)}'
     ctx = {'log': [], 'engine': None, 'nphase': 0}
     ctx['now'] = lambda: 0 if ctx['engine'] is None else int(round(ctx['engine'].global_time))
@@ -132,7 +151,7 @@ def run_impl(case):
                  'topology': {'agents': {}, 'director': {'agents': ('agents',)}}}
         init = {'agents': {}}
         for i, k in enumerate(case['initial']):
-            comp = compartment(key, case['x0'] + 10 * i)
+            comp = compartment(key, case['x0'] + 10 * i, case.get('slow'))
             for part in ('processes', 'steps', 'flow', 'topology'):
                 parts[part]['agents'][k] = comp[part]
             init['agents'][k] = comp['initial_state']
